@@ -288,6 +288,71 @@ def r14_5(ctx, fx):
         ctx.ob("R14.5", "RoutingTable::closest/bucket-order-from-distance(local_key,target)", ok, site=fn.site(fn.entry), cfg=fx.cfg)
 
 
+CONNECTION_WRITERS = {
+    # function (short) -> what it may store in KademliaPeer.connection of a stored entry
+    "KBucketEntry::insert": "the new peer replacing a vacant slot",
+    "RoutingTable::on_connection_established": "Connected",
+    "RoutingTable::add_known_peer": "the caller's connectivity argument (checked at the callers)",
+    "Kademlia::disconnect_peer": "NotConnected, on connection loss",
+}
+
+
+def r14_7(ctx, fx):
+    """who may downgrade a stored peer: an entry's `connection` decides whether KBucket::entry may hand its slot out (R14.3), so it is
+    written only by the functions in CONNECTION_WRITERS, and add_known_peer's connectivity argument is either the constant NotConnected
+    at construction time (empty table) or `self.peers.get(&peer).map_or(NotConnected, |_| Connected)` - the live connection set.
+    Any other writer (e.g. a dial-failure handler) can mark a connected peer evictable."""
+    n = 0
+    for key in sorted(fx.find(r"^protocol::libp2p::kademlia::(routing_table|bucket|mod|)")):
+        if not key.startswith("protocol::libp2p::kademlia::") or "::schema::" in key or "::tests::" in key:
+            continue
+        fn = fx.fn(key)
+        for node, s_ in fn.assigns():
+            l = "".join(str(x) for x in s_["lhs"][1:])
+            if not l.endswith(".connection") or "KademliaPeer" not in fn.local_ty(s_["lhs"][0]):
+                continue
+            n += 1
+            who = short(key)
+            allowed = [w for w in CONNECTION_WRITERS if who.startswith(w) or who.endswith(w) or w in who]
+            val = sorted(fn.shape(s_["rv"]["o"])) if s_["rv"]["r"] == "use" else [s_["rv"]["r"]]
+            ok = bool(allowed)
+            if ok and "on_connection_established" in who:
+                ok = val == ["Connected"]
+            if ok and "disconnect_peer" in who:
+                ok = val == ["NotConnected"]
+            ctx.ob("R14.7", "%s/writes-entry.connection" % who, ok, site=fn.site(node), cfg=fx.cfg,
+                   detail="value %s; allowed writers: %s" % (val, sorted(CONNECTION_WRITERS)))
+    ctx.anchor("R14.7", "writes to KademliaPeer.connection", n, 4, cfg=fx.cfg)
+    m = 0
+    for key in sorted(fx.callers_of("protocol::libp2p::kademlia::routing_table::RoutingTable::add_known_peer")):
+        fn = fx.fn(key)
+        for i, c in enumerate(fn.calls(r"RoutingTable::add_known_peer$")):
+            m += 1
+            sh = fn.shape(c.args[3])
+            ok = False
+            why = "shape %s" % sorted(sh)
+            if sh == {"NotConnected"}:
+                ok = short(key).endswith("Kademlia::new")
+                why = "constant NotConnected is allowed only while the table is being built (Kademlia::new)"
+            elif all(x.startswith("call:") and x.endswith("Option::map_or") for x in sh):
+                p = fn.producer(c.args[3])
+                if p is not None and len(p.args) == 3:
+                    rs = guards.rootstrs(fn, p.args[0])
+                    dflt = fn.shape(p.args[1])
+                    # the closure applied to a present peer yields Connected
+                    some_val = None
+                    a2 = p.args[2].get("m") or p.args[2].get("c")
+                    for node_, kind_, pl_ in (fn.defs().get(a2[0], []) if a2 else []):
+                        if kind_ == "assign" and pl_["rv"]["r"] == "agg" and pl_["rv"].get("closure"):
+                            if fx.has(pl_["rv"]["closure"]):
+                                some_val = fx.fn(pl_["rv"]["closure"]).shape({"c": [0]})
+                    ok = any("HashMap::get" in x for x in rs) and any(re.search(r"^param:_1.*\.peers", x) for x in rs) and dflt == {"NotConnected"} \
+                        and some_val == {"Connected"}
+                    why = "map_or receiver roots %s default %s closure yields %s" % (sorted(x for x in rs if "get" in x or "peers" in x), sorted(dflt), some_val)
+            ctx.ob("R14.7", "%s/add_known_peer#%d-connectivity-from-the-live-peer-set" % (short(key), i), ok, site=fn.site(c.node), cfg=fx.cfg, detail=why)
+    ctx.anchor("R14.7", "add_known_peer call sites", m, 3, cfg=fx.cfg)
+
+
 def run(ctx):
     fx = ctx.facts("default")
     r14_1(ctx, fx)
@@ -296,4 +361,5 @@ def run(ctx):
     r14_4(ctx, fx)
     r14_5(ctx, fx)
     r14_6(ctx, fx)
+    r14_7(ctx, fx)
     ctx.assume("Distance::ilog2 returns None exactly for distance 0 and a value < 256 otherwise (U256 arithmetic, trusted)")
